@@ -310,22 +310,32 @@ class Machine:
         """position-wise: a registered id yields the registered object, otherwise a new node with that id."""
         recreated: dict[str, Any] = {}
 
-        def rec(o: Any, r: Any, path: str) -> None:
+        def rec(o: Any, r: Any, path: str) -> bool:
+            """returns whether the subtree came back with the original content (False when some position
+            holds another live node that had taken over a freed id: then the ancestors' content differs)"""
             if o.id in recreated:
-                require(r is recreated[o.id], "roundtrip-shared-object", f"step {self.step_no} at {path}")
-                return
+                require(r is recreated[o.id][0], "roundtrip-shared-object", f"step {self.step_no} at {path}")
+                return recreated[o.id][1]
             holder = self._holder_before.get(o.id)
             if holder is not None:
                 require(r is holder, "roundtrip-returns-registered", f"step {self.step_no} at {path}")
-                return
-            require(r is not o and type(r) is type(o) and r.id == o.id and r.content_id == o.content_id,
+                return holder is o
+            require(r is not o and type(r) is type(o) and r.id == o.id,
                     "roundtrip-recreates-with-id", f"step {self.step_no} at {path}: {type(r).__name__} {r.id} vs {o.id}")
-            recreated[o.id] = r
+            recreated[o.id] = (r, True)
             oc, rc = T.live_children(o), T.live_children(r)
             require(len(oc) == len(rc), "roundtrip-shape", path)
+            faithful = True
             for (a, fa, ia), (b_, fb, ib) in zip(oc, rc):
                 require((fa, ia) == (fb, ib), "roundtrip-shape", path)
-                rec(a, b_, f"{path}.{fa}[{ia}]")
+                faithful = rec(a, b_, f"{path}.{fa}[{ia}]") and faithful
+            recreated[o.id] = (r, faithful)
+            if faithful:
+                require(r.content_id == o.content_id, "roundtrip-recreates-with-id",
+                        f"step {self.step_no} at {path}: content_id {r.content_id} vs {o.content_id}")
+            else:
+                self.lab.tag("roundtrip-position-taken-over-by-other-node")
+            return faithful
 
         rec(x, res, "root")
 
